@@ -215,6 +215,11 @@ func Verif_C09_DebScripts() {
 			}
 		}
 	}
+	// two events may be served by one script file: both slots must then carry it
+	if set[0] && set[1] && v.NondetBool("share.one.file") {
+		sc.Info.Scripts.PostInstall = sc.Info.Scripts.PreInstall
+		body[1] = body[0]
+	}
 	d, ok := verifBuild(sc)
 	v.Reach("C09.deb.ran")
 	if !ok {
@@ -236,4 +241,35 @@ func Verif_C09_DebScripts() {
 			v.Assert(m.Mode == wantMode, "deb-script-mode")
 		}
 	}
+}
+
+// Verif_C03_DebChangelogDigests: with a generated changelog (its text is an
+// opaque model value) md5sums still has one correct line per regular member,
+// the changelog included, also for the files packed after it.
+func Verif_C03_DebChangelogDigests() {
+	sc := scen.Payload(scen.Options{SymContent: true, Second: 3})
+	mt := time.Unix(1500000000, 0).UTC()
+	sc.Info.Changelog = models.AddFile("/src/changelog.yaml", []byte("- semver: 1.0.0\n"), 0o644, mt)
+	// one more regular file that sorts after /usr/share/doc/pkg/changelog.Debian.gz
+	late := v.NondetBytes("late.content", 2)
+	sc.Info.Contents = append(sc.Info.Contents, &files.Content{Source: models.AddFile("/src/late", late, 0o644, mt), Destination: "/usr/share/doc/pkg/copyright"})
+	d, ok := verifBuild(sc)
+	v.Reach("C03.deb.changelog.ran")
+	if !ok {
+		return
+	}
+	want := ""
+	sawChangelog := false
+	for _, e := range d.data {
+		if e.Type == '0' {
+			sum := md5.Sum(e.Data)
+			want += v.Hex(sum[:]) + "  " + e.Name + "\n"
+			if e.Name == "./usr/share/doc/pkg/changelog.Debian.gz" {
+				sawChangelog = true
+			}
+		}
+	}
+	v.Assert(sawChangelog, "deb-changelog-is-shipped")
+	m := models.Find(d.control, "./md5sums")
+	v.Assert(m != nil && string(m.Data) == want, "deb-md5sums-match-shipped-bytes-with-changelog")
 }
